@@ -15,6 +15,7 @@ from dask_expr._expr import (
     determine_column_projection,
     make_meta,
 )
+from dask_expr._util import _labels_to_list
 
 BlockwiseDep = namedtuple(typename="BlockwiseDep", field_names=["iterable"])
 
@@ -88,7 +89,11 @@ class RollingReduction(Expr):
         if isinstance(parent, Projection) and self.ndim == 2:
             by = self.groupby_kwargs.get("by", []) if self.groupby_kwargs else []
             by_columns = by if not isinstance(by, Expr) else []
-            columns = determine_column_projection(self, parent, dependents, by_columns)
+            # A single label is returned as is; ``in`` on a string label would
+            # test for substrings
+            columns = _labels_to_list(
+                determine_column_projection(self, parent, dependents, by_columns)
+            )
             columns = [col for col in self.frame.columns if col in columns]
             if columns == self.frame.columns:
                 return
